@@ -26,6 +26,8 @@ def ensure_repo_on_path():
     want = os.path.realpath(os.path.join(REPO, 'pycdlib'))
     if here != want:
         raise RuntimeError('pycdlib imported from %s, expected %s' % (here, want))
+    import logging
+    logging.disable(logging.CRITICAL)     # pycdlib warns on stderr about odd boot images; never part of an oracle
 
 
 def hbytes(*parts, size=8):
